@@ -20,6 +20,36 @@ use std::sync::atomic::{AtomicUsize, Ordering};
 use std::sync::{Arc, Mutex};
 use std::time::{Duration, Instant};
 
+// Counting allocator (C07): live heap bytes / blocks of the whole process. Only meaningful for
+// lifecycle jobs, which the driver runs in a single-worker process.
+struct Counting;
+static LIVE_BYTES: std::sync::atomic::AtomicIsize = std::sync::atomic::AtomicIsize::new(0);
+static LIVE_BLOCKS: std::sync::atomic::AtomicIsize = std::sync::atomic::AtomicIsize::new(0);
+unsafe impl std::alloc::GlobalAlloc for Counting {
+    unsafe fn alloc(&self, l: std::alloc::Layout) -> *mut u8 {
+        let p = unsafe { std::alloc::System.alloc(l) };
+        if !p.is_null() {
+            LIVE_BYTES.fetch_add(l.size() as isize, Ordering::Relaxed);
+            LIVE_BLOCKS.fetch_add(1, Ordering::Relaxed);
+        }
+        p
+    }
+    unsafe fn dealloc(&self, p: *mut u8, l: std::alloc::Layout) {
+        unsafe { std::alloc::System.dealloc(p, l) };
+        LIVE_BYTES.fetch_sub(l.size() as isize, Ordering::Relaxed);
+        LIVE_BLOCKS.fetch_sub(1, Ordering::Relaxed);
+    }
+    unsafe fn realloc(&self, p: *mut u8, l: std::alloc::Layout, new_size: usize) -> *mut u8 {
+        let q = unsafe { std::alloc::System.realloc(p, l, new_size) };
+        if !q.is_null() {
+            LIVE_BYTES.fetch_add(new_size as isize - l.size() as isize, Ordering::Relaxed);
+        }
+        q
+    }
+}
+#[global_allocator]
+static GLOBAL: Counting = Counting;
+
 thread_local! {
     static LAST_PANIC: RefCell<Option<(String, String, String)>> = const { RefCell::new(None) };
 }
@@ -939,6 +969,39 @@ thread_local! {
     static CUR_OFFSET: std::cell::Cell<i64> = const { std::cell::Cell::new(-1) };
 }
 
+/// C07: create / run / drop runtimes repeatedly from clones of ONE compiled program and record the
+/// process's live heap after every cycle. `histories` = run specs (budget, max_steps,
+/// drop_after_calls, ...) applied round-robin; `cycles` = how many runtimes are created.
+fn job_lifecycle(job: &J, std: &Std) -> J {
+    let hosts = host_table(job);
+    let main = main_name(job);
+    let (prog, c) = compile_guarded(|| abra_core::compile_bytecode(&main, provider(job, std)));
+    let mut res = Map::new();
+    res.insert("compile".into(), c);
+    let Some(prog) = prog else { return J::Object(res) };
+    let histories: Vec<J> = job.get("histories").and_then(|h| h.as_array()).cloned().unwrap_or_else(|| vec![json!({})]);
+    let cycles = job.get("cycles").and_then(|c| c.as_u64()).unwrap_or(20) as usize;
+    // pre-sized so that recording a sample does not allocate
+    let mut live: Vec<(isize, isize)> = Vec::with_capacity(cycles);
+    let mut statuses: HashMap<String, u64> = HashMap::new();
+    for k in ["done", "error", "cap", "dropped", "panic", "stuck"] {
+        statuses.insert(k.to_string(), 0);
+    }
+    // scratch the executor itself allocates per run (output strings, maps) is freed before sampling
+    for i in 0..cycles {
+        let spec = &histories[i % histories.len()];
+        let p = prog.clone();
+        let o = exec_run(move || Runtime::new(p), &RunCfg { spec, hosts: &hosts });
+        *statuses.entry(o["status"].as_str().unwrap_or("").to_string()).or_insert(0) += 1;
+        drop(o);
+        live.push((LIVE_BYTES.load(Ordering::Relaxed), LIVE_BLOCKS.load(Ordering::Relaxed)));
+    }
+    drop(prog);
+    res.insert("live".into(), J::Array(live.iter().map(|(b, n)| json!([b, n])).collect()));
+    res.insert("statuses".into(), json!(statuses));
+    J::Object(res)
+}
+
 fn run_job(job: &J, std: &Std) -> J {
     let mode = job.get("mode").and_then(|m| m.as_str()).unwrap_or("run");
     let t0 = Instant::now();
@@ -947,6 +1010,7 @@ fn run_job(job: &J, std: &Std) -> J {
         "check" => job_check(job, std, false),
         "checkcompile" => job_check(job, std, true),
         "lsp" => job_lsp(job, std),
+        "lifecycle" => job_lifecycle(job, std),
         _ => json!({"harness_error": format!("unknown mode {mode}")}),
     };
     if let Some(o) = r.as_object_mut() {
